@@ -31,6 +31,8 @@ type Program struct {
 	Universe  *Universe
 	relCache  map[string][]string
 	relBusy   map[string]bool
+	defFamCache map[string][]string
+	defNested   map[string]bool
 }
 
 func loadProgram(repo string) (*Program, error) {
